@@ -1457,11 +1457,12 @@ type Lock struct {
 	expried             bool
 	aofTime             uint8
 	isAof               bool
+	ackAofed            bool // ack pending: the leader's own append file write of the record has been confirmed
 }
 
 func NewLock(manager *LockManager, protocol ServerProtocol, command *protocol.LockCommand) *Lock {
 	return &Lock{manager, command, protocol.GetProxy(), nil, 0, 0, 0,
-		0, 1, 1, 0, 0, 0xff, true, true, 0, false}
+		0, 1, 1, 0, 0, 0xff, true, true, 0, false, false}
 }
 
 func (self *Lock) GetDB() *LockDB {
